@@ -434,7 +434,7 @@ def verify_combo(world, c, combo, use_contracts, spec_builtins):
     return out
 
 
-def apply_contract_at_call(I, c, f, args, kwargs, node):
+def apply_contract_at_call(I, c, f, args, kwargs, node, also=()):
     """modular call: the callee is represented by its contract, not its body"""
     st = I.st
     bound = I.bind_args(f, args, kwargs)
@@ -490,6 +490,42 @@ def apply_contract_at_call(I, c, f, args, kwargs, node):
             # kept out of the feasibility solver (definitional facts about the result; feasibility
             # is over-approximated, every VC still carries them)
             st.assume(eval_clause(I, cl.expr, env, assumed=True), lazy=not c.eager_ensures)
+        for c2 in also:
+            if set(c2.modifies or []) - set(c.modifies or []):
+                raise Unsupported(f"contracts {c.name} and {c2.name} of one function disagree on what it modifies")
+            b2 = dict(bound)
+            skip2 = []
+            for gname in c2.params:
+                if gname not in b2:
+                    gv = I.config.get('ghosts', {}).get(gname)
+                    if gv is not None:
+                        b2[gname] = gv
+                    else:
+                        skip2.append(gname)
+            env2 = Env(dict(b2), pyglobals=dict(c2.spec_globals))
+            saved = I.config['old_env']
+            I.config['old_env'] = Env(dict(I.config['old_env'].vars, **{k: v for k, v in b2.items()
+                                                                        if k not in I.config['old_env'].vars}),
+                                      pyglobals=dict(c2.spec_globals))
+            try:
+                # (pre-conditions of the additional contract are evaluated on the state after the call only when the
+                # call modifies nothing; otherwise they must be the same as the first contract's)
+                if c2.requires != c.requires:
+                    if c.modifies:
+                        raise Unsupported(f"contracts {c.name} and {c2.name}: different pre-conditions on a mutating function")
+                    for i, r in enumerate(c2.requires):
+                        t = eval_clause(I, r, env2)
+                        st.add_vc(f"pre[{c2.name}].{i}", 'pre', t, {'level': 'top', 'callee': c2.name,
+                                                                     'line': getattr(node, 'lineno', None)})
+                        st.assume(t)
+                env2.vars['result'] = res
+                for cl in c2.ensures:
+                    if any(re.search(r'\b' + re.escape(g) + r'\b', cl.expr) for g in skip2):
+                        continue
+                    st.assume(eval_clause(I, cl.expr, env2, assumed=True), lazy=not c2.eager_ensures)
+            finally:
+                I.config['old_env'] = saved
+            st.events.append(('call', c2.name, dict(b2), res))
         st.events.append(('call', c.name, dict(bound), res))
         return res
     finally:
